@@ -163,7 +163,7 @@ def run_property(prop, tier, seed=0, only=None, jobs=None, verbose=True):
                     for e in known:
                         if e.get("query") and not job.q["id"].startswith(e["query"]):
                             continue
-                        if h.match_expr(e["match"], args, job.q["sel"]):
+                        if h.match_expr(e["match"], args, job.q["sel"], mod):
                             hit = e
                             break
                     if hit is None:
